@@ -622,3 +622,70 @@ func (r *Region) ReachFromEntry(b ssa.Instruction, cuts *Cuts) bool {
 	}
 	return true
 }
+
+// ConstCuts: the branches inside inlined helpers that are decided by a constant argument at the
+// helper's (single) call site – `tm.stopChan(true)` with `if renew { … }` inside: the edges that
+// contradict the constant.
+func (r *Region) ConstCuts() *Cuts {
+	cuts := newCuts()
+	for _, f := range r.order {
+		site := r.site[f]
+		if site == nil {
+			continue
+		}
+		args := site.Common().Args
+		for i, p := range f.Params {
+			if i >= len(args) || !isBoolType(p.Type()) {
+				continue
+			}
+			k, ok := args[i].(*ssa.Const)
+			if !ok || k.Value == nil {
+				continue
+			}
+			t, fl := boolEdges(p)
+			if k.Value.String() == "true" {
+				cuts.addEdges(fl)
+			} else {
+				cuts.addEdges(t)
+			}
+		}
+	}
+	return cuts
+}
+
+// DominatesUnder: every path of the inlined view from the root's entry to b that avoids the cut
+// edges passes a.
+func (r *Region) DominatesUnder(a, b ssa.Instruction, cuts *Cuts) bool {
+	if a == nil || b == nil {
+		return false
+	}
+	if r.Dominates(a, b) {
+		return true
+	}
+	c2 := newCuts()
+	for e := range cuts.Edges {
+		c2.Edges[e] = true
+	}
+	for in := range cuts.Instrs {
+		c2.Instrs[in] = true
+	}
+	// a inside a helper: cutting a itself and the helper's call on paths that skip it is expressed by
+	// cutting a and asking whether b is still reachable from the entry
+	c2.addInstr(a)
+	// a call of an inlined helper is passed only when the helper can return: helpers that cannot (every
+	// path to a return crosses a cut – for instance `a` itself) block their call site, innermost first
+	for changed := true; changed; {
+		changed = false
+		for _, f := range r.order {
+			site := r.site[f]
+			if site == nil || c2.Instrs[site] {
+				continue
+			}
+			if hit, _ := reach(entrySite(f), isReturn, c2); !hit {
+				c2.addInstr(site)
+				changed = true
+			}
+		}
+	}
+	return !r.ReachFromEntry(b, c2)
+}
